@@ -597,7 +597,8 @@ class Walker:
                 inner = self.merge_paths(normal, 0)
                 if inner is None:
                     return None
-                return ('orelse', inner, handler[0][1])
+                caught = tuple(sorted({e[1] for p, _ in handler for e in p.events if e[0] == 'except'}))
+                return ('orelse', inner, handler[0][1], caught)
         tests = [p.conds[depth][0] if len(p.conds) > depth else None for p, _ in vals]
         if any(t is None or t != tests[0] for t in tests):
             return None
